@@ -1060,6 +1060,40 @@ pub fn run(opts: &Opts) -> Report {
     gen_bytes(&mut cases, &mut rng, if t { 350_000 } else { 40_000 });
     gen_malformed(&mut cases, &mut rng, if t { 50_000 } else { 5_000 });
 
+    // literals in company: what a literal denotes does not depend on the literals before it in the same expression
+    // (`[A, B]` is the list of the two values, or a syntax error as soon as one of them is one) — in particular the
+    // special case of `-9223372036854775808` must not leak to a later out-of-range literal
+    {
+        let simple: Vec<usize> = (0..cases.len())
+            .filter(|i| matches!(cases[*i].expect, Expect::Val(_) | Expect::Syntax) && !cases[*i].kind.starts_with("malformed") && !cases[*i].src.contains('\n'))
+            .collect();
+        let mins: Vec<usize> = simple.iter().cloned().filter(|i| cases[*i].kind.starts_with("negint") && cases[*i].src.contains("9223372036854775808") && matches!(cases[*i].expect, Expect::Val(_))).take(4).collect();
+        let outs: Vec<usize> = simple.iter().cloned().filter(|i| cases[*i].kind.contains("out-of-range") && !cases[*i].kind.starts_with("negint")).take(12).collect();
+        let mut pairs: Vec<(usize, usize)> = Vec::new();
+        for a in mins.iter() {
+            for b in outs.iter() {
+                pairs.push((*a, *b));
+                pairs.push((*b, *a));
+            }
+        }
+        let n_pairs = if t { 60_000 } else { 6_000 };
+        for _ in 0..n_pairs {
+            if simple.is_empty() {
+                break;
+            }
+            pairs.push((simple[rng.below(simple.len())], simple[rng.below(simple.len())]));
+        }
+        for (a, b) in pairs {
+            let (ca, cb) = (cases[a].clone(), cases[b].clone());
+            let expect = match (&ca.expect, &cb.expect) {
+                (Expect::Val(x), Expect::Val(y)) => Expect::Val(format!("l:2 {} {}", x, y)),
+                _ => Expect::Syntax,
+            };
+            let sep = ["", " ", "  "][rng.below(3)];
+            cases.push(Case { src: format!("[{},{}{}]", ca.src, sep, cb.src), expect, kind: "pair".to_string(), wrap: 0 });
+        }
+    }
+
     let threads = std::thread::available_parallelism().map(|n| n.get()).unwrap_or(4).min(16);
     let obs = evaluate(&cases, threads);
 
